@@ -8,6 +8,17 @@ history-independent menu F = {files the tool writes in the initial state and aft
   (a) every option's value equal           (b) write(k2) == t1 byte for byte
   (c) no default-value-mismatch / multiple-assignment records and no unknown symbols after the load
   (d) same with the deprecated-options block (rename table loaded, write_deprecated=True)
+
+Program families: one probe kind per construct whose written form / load path is special, each in every context.  The
+"choice with followers" family (CHOICE_FOLLOW_KINDS) combines a 3-member choice with promptless int / string / bool options
+and a prompted int whose defaults follow the members (`default 0 if M1`, `default 4 if M2`), written after or before the
+choice, and with the choice's default member depending on an option defined AFTER the choice (through the condition of the
+choice's `default` or through the member's `depends on`): the loader defers choice selections and default resolution, so
+what it evaluates while the lines are still being read differs from the final configuration.
+String alphabet: besides quotes / backslashes / blanks / `#`, one value (quick) made of every character that
+str.splitlines() treats as a line boundary although a text file does not (VT FF FS GS RS NEL U+2028 U+2029) and, in the
+thorough tier, each of them alone next to a quote; the same characters in the Kconfig default of a prompted and of a
+promptless option.
 """
 
 from __future__ import annotations
@@ -24,25 +35,34 @@ RULE = (
     "explicit-state BFS per program over set/unset/reset and load/merge of files from a fixed menu (tool-written at the "
     "initial and at every single-set state, plus hand-written unmarked files); programs = probe kinds (escaped strings, hex "
     "forms, floats, ranged int, bool, 3-member choice, set / set default target, promptless conditional default before its "
-    "dependency, multi-definition) x contexts (plain, conditional prompt with the condition before/after, depends, menu "
-    "depends, menu visible if, if) + probe pairs; each also with a rename table. States merged on (user values, selections, "
+    "dependency, multi-definition, choice with promptless/prompted options whose defaults follow its members -- written after / "
+    "before the choice, default member conditional on / depending on an option defined after the choice) x contexts (plain, conditional prompt with the condition before/after, depends, menu "
+    "depends, menu visible if, if) + probe pairs; each also with a rename table. Depth 3 (thorough 4); the choice-with-followers "
+    "family at full depth in the plain context and one less in the others. String values and Kconfig string defaults include the "
+    "characters str.splitlines() splits at (VT FF FS GS RS NEL U+2028 U+2029). States merged on (user values, selections, "
     "injected defaults). distinct_nontrivial = distinct (program, state) with at least one user value or pick."
 )
 ASSUMPTIONS = [
+    "choice-with-followers programs in a non-plain context are explored one operation shallower than the rest (state spaces of choice programs are the largest)",
+    "thorough-tier probe pairs use every earlier probe kind plus `choice_follow`; the three other choice-with-followers kinds are not paired",
     "the canonical key (user values, user selections, injected defaults) determines the written text, so revisited states are not re-checked",
     "load menu is history independent so that merging states is sound; files written deeper in a history are covered by the thorough tier's larger menu",
 ]
 
 # probe kinds: (name, builder(context deps) -> list of nodes, setters)
-STR_VALS_Q = ['a"b', "a\\b", "trail\\", " lead ", "#x", ""]
-STR_VALS_T = STR_VALS_Q + ["a\nb", "a\rb", "a\x0cb\u2028c", "'q'", "é", "$(X)", "a\\\"b"]
+# characters that str.splitlines() treats as line boundaries although a text file (and the writer) only ends lines at \n / \r
+SEPARATORS = "\x0b\x0c\x1c\x1d\x1e\x85\u2028\u2029"
+STR_VALS_Q = ['a"b', "a\\b", "trail\\", " lead ", "#x", "s" + "".join(c + "s" for c in SEPARATORS), ""]
+STR_VALS_T = STR_VALS_Q + ["a\nb", "a\rb", "a\x0cb\u2028c", "'q'", "é", "$(X)", "a\\\"b"] + ["a" + c + '"b' for c in SEPARATORS]
 
 
 def probe(kind: str, tier: str):
     """returns (nodes, setters {name: [values]}, renames lines)"""
     if kind == "string":
         vals = STR_VALS_Q if tier == "quick" else STR_VALS_T
-        return [Cfg("P", "string", prompt="p", defaults=[(L('"d"'), None)])], {"P": vals}, ["CONFIG_OLD_P CONFIG_P"]
+        # PD / R: a prompted and a promptless option whose Kconfig DEFAULT carries the separator characters (never set)
+        sep = L('"' + STR_VALS_Q[-2] + '"')
+        return [Cfg("P", "string", prompt="p", defaults=[(L('"d"'), None)]), Cfg("PD", "string", prompt="pd", defaults=[(sep, None)]), Cfg("R", "string", defaults=[(sep, None)])], {"P": vals}, ["CONFIG_OLD_P CONFIG_P"]
     if kind == "hex":
         return [Cfg("P", "hex", prompt="p", defaults=[(L("0x10"), None)])], {"P": ["0x1F", "1f", "0X2a"]}, ["CONFIG_OLD_P CONFIG_P"]
     if kind == "float":
@@ -84,10 +104,52 @@ def probe(kind: str, tier: str):
     if kind == "select_imply":
         src = Cfg("SRC", "bool", prompt="src", selects=[("P", None)], implies=[("P2", None)])
         return [Cfg("P", "bool", prompt="p"), Cfg("P2", "bool", prompt="p2"), src], {"SRC": ["y", "n"], "P": ["n", "y"], "P2": ["n"]}, ["CONFIG_OLD_NP2 !CONFIG_P2"]
+    if kind in CHOICE_FOLLOW_KINDS:
+        return choice_follow(kind)
     raise ValueError(kind)
 
 
-PROBES = ("string", "hex", "float", "int_range", "range_sym_bounds", "bool", "choice3", "set_target", "wset_target", "promptless_before", "multi_def", "select_imply", "nonbool_in_choice", "nonbool_direct_in_choice", "float_noncanonical", "hex_int_indirect")
+def followers() -> List[Any]:
+    """options whose defaults follow the members of the choice {M1, M2, M3}: promptless int / string / bool and a prompted int"""
+    return [
+        Cfg("P", "int", defaults=[(L("0"), S("M1")), (L("4"), S("M2")), (L("-1"), None)]),
+        Cfg("PS", "string", defaults=[(L('"m1"'), S("M1")), (L('"m \\"2\\""'), S("M2")), (L('"none"'), None)]),
+        Cfg("PB", "bool", defaults=[(L("y"), S("M3"))]),
+        Cfg("PP", "int", prompt="pp", defaults=[(L("10"), S("M1")), (L("20"), S("M2")), (L("30"), None)]),
+    ]
+
+
+CHOICE_FOLLOW_KINDS = ("choice_follow", "choice_follow_before", "choice_default_cond_after", "choice_member_dep_after")
+
+
+def choice_follow(kind: str):
+    """a choice together with promptless and prompted options whose defaults follow its members
+
+    choice_follow             choice (explicit default M1), followers after it
+    choice_follow_before      followers written BEFORE the choice they follow
+    choice_default_cond_after the choice's default member is conditional (`default M2 if X`) on an option X defined (and
+                              written) AFTER the choice: while the file is being read the choice still resolves to M1
+    choice_member_dep_after   the default member M2 depends on an option X defined AFTER the choice
+    """
+    ren = ["CONFIG_OLD_P CONFIG_P", "CONFIG_OLD_M2 CONFIG_M2", "CONFIG_OLD_NM3 !CONFIG_M3"]
+    ms = [Cfg("M1", "bool", prompt="m1"), Cfg("M2", "bool", prompt="m2"), Cfg("M3", "bool", prompt="m3")]
+    picks = {"M2": ["y"], "M3": ["y"], "M1": ["y"]}
+    if kind in ("choice_follow", "choice_follow_before"):
+        ch = Choice(prompt="c", defaults=[("M1", None)], children=ms)
+        nodes = [ch] + followers() if kind == "choice_follow" else followers() + [ch]
+        return nodes, dict(picks, PP=["7"]), ren
+    X = Cfg("X", "bool", prompt="x")
+    if kind == "choice_default_cond_after":
+        ch = Choice(prompt="c", defaults=[("M2", S("X"))], children=ms)
+        return [ch] + followers() + [X], dict(picks, X=["y", "n"]), ren
+    if kind == "choice_member_dep_after":
+        ms[1].depends.append(S("X"))
+        ch = Choice(prompt="c", defaults=[("M2", None)], children=ms)
+        return [ch] + followers() + [X], dict(picks, X=["y", "n"]), ren
+    raise ValueError(kind)
+
+
+PROBES = ("string", "hex", "float", "int_range", "range_sym_bounds", "bool", "choice3", "set_target", "wset_target", "promptless_before", "multi_def", "select_imply", "nonbool_in_choice", "nonbool_direct_in_choice", "float_noncanonical", "hex_int_indirect") + CHOICE_FOLLOW_KINDS
 CONTEXTS = ("plain", "prompt_if_before", "prompt_if_after", "depends", "menu_depends", "menu_visible", "if", "comment_menu", "pragma_like_titles")
 
 
@@ -132,7 +194,7 @@ def programs(tier: str) -> Iterator[Dict[str, Any]]:
                 st["A"] = ["n", "y"]
             yield {"name": f"{pk}/{ctx}", "prog": Program(children=kids), "setters": st, "renames": ren}
     # pairs of probes in one tree (names made distinct by suffixing)
-    pairs = list(itertools.combinations(("string", "hex", "bool", "choice3", "set_target", "promptless_before"), 2)) if tier == "quick" else list(itertools.combinations(PROBES, 2))
+    pairs = list(itertools.combinations(("string", "hex", "bool", "choice3", "set_target", "promptless_before"), 2)) if tier == "quick" else list(itertools.combinations(PROBES[: -len(CHOICE_FOLLOW_KINDS) + 1], 2))
     for a, b in pairs:
         na, sa, ra = probe(a, tier)
         nb, sb, rb = probe(b, tier)
@@ -191,7 +253,9 @@ def items(tier: str, seed: int):
     depth = 3 if tier == "quick" else 4
     out = []
     for p in programs(tier):
-        out.append({"name": p["name"], "files": kgen.render(p["prog"]), "setters": p["setters"], "renames": ["\n".join(p["renames"]) + "\n"], "depth": depth, "tier": tier})
+        # the choice-with-followers family has large state spaces: full depth in the plain context, one less in the others
+        d = depth - 1 if p["name"].startswith(CHOICE_FOLLOW_KINDS) and not p["name"].endswith("/plain") else depth
+        out.append({"name": p["name"], "files": kgen.render(p["prog"]), "setters": p["setters"], "renames": ["\n".join(p["renames"]) + "\n"], "depth": d, "tier": tier})
     return out
 
 
@@ -305,8 +369,15 @@ def explore_item(item, r: common.Result, only_history=None):
                 case_of(h),
             )
         if ma.multiple_assignments_sym or ma.multiple_assignments_choice:
+            ents = [bool(d) for lst in list(ma.multiple_assignments_sym.values()) + list(ma.multiple_assignments_choice.values()) for e in lst for d in (e[1:2] if isinstance(e, tuple) else ())]
             r.violation(
-                {"kind": "multiple_assignment_reported", "variant": tag},
+                {
+                    "kind": "multiple_assignment_reported",
+                    "variant": tag,
+                    "subject": sorted(({"option"} if ma.multiple_assignments_sym else set()) | ({"choice"} if ma.multiple_assignments_choice else set())),
+                    "entries": "default_marked" if ents and all(ents) else "user" if ents and not any(ents) else "mixed",
+                    "selection": "user" if any(c._user_selection is not None for c in st.k.unique_choices) else "default",
+                },
                 f"[{name}] after {fmt(h)}: reload reports multiple assignments "
                 f"{[(s.name, v) for s, v in ma.multiple_assignments_sym.items()]} {[(c.name, v) for c, v in ma.multiple_assignments_choice.items()]}",
                 case_of(h),
